@@ -1,0 +1,66 @@
+// Copyright 2015-2019 HenryLee. All Rights Reserved.
+//
+// Licensed under the Apache License, Version 2.0 (the "License");
+// you may not use this file except in compliance with the License.
+// You may obtain a copy of the License at
+//
+//      http://www.apache.org/licenses/LICENSE-2.0
+//
+// Unless required by applicable law or agreed to in writing, software
+// distributed under the License is distributed on an "AS IS" BASIS,
+// WITHOUT WARRANTIES OR CONDITIONS OF ANY KIND, either express or implied.
+// See the License for the specific language governing permissions and
+// limitations under the License.
+
+package erpc
+
+import "sync"
+
+// graceGroup counts the in-flight work (handler contexts, launched calls) that a
+// closing session waits for. It has the Add/Done/Wait methods of sync.WaitGroup, but
+// Add may run concurrently with Wait and the group may be counted up again while a
+// Wait is returning: a session is used from many goroutines (Push, AsyncCall, the read
+// loop) while another goroutine closes it, which sync.WaitGroup does not allow
+// (data race on the group, "WaitGroup is reused before previous Wait has returned"
+// and "WaitGroup misuse: Add called concurrently with Wait" panics).
+// Wait returns once the counter has been observed at zero.
+type graceGroup struct {
+	mu   sync.Mutex
+	n    int
+	idle *sync.Cond
+}
+
+func (g *graceGroup) lock() {
+	g.mu.Lock()
+	if g.idle == nil {
+		g.idle = sync.NewCond(&g.mu)
+	}
+}
+
+// Add adds delta, which may be negative, to the counter.
+func (g *graceGroup) Add(delta int) {
+	g.lock()
+	g.n += delta
+	if g.n < 0 {
+		g.mu.Unlock()
+		panic("erpc: negative graceGroup counter")
+	}
+	if g.n == 0 {
+		g.idle.Broadcast()
+	}
+	g.mu.Unlock()
+}
+
+// Done decrements the counter by one.
+func (g *graceGroup) Done() {
+	g.Add(-1)
+}
+
+// Wait blocks until the counter is zero.
+func (g *graceGroup) Wait() {
+	g.lock()
+	for g.n > 0 {
+		g.idle.Wait()
+	}
+	g.mu.Unlock()
+}
